@@ -162,4 +162,31 @@ theorem value_implies_supported (P : Platform) (σ : Store) (op : TT) (a b v : V
 example : binop { lm := fun _ => false, nfc := id, pow := fun a _ => a, sin := id, cos := id, tan := id, now := .nan } {} .SLASH
     (.num (F64.ofNat 1)) (.num F64.zero) = .error msgDivZero := by rfl
 
+/-! ## algebraic laws of the arithmetic the operators compute (sanity of the binary64 definition) -/
+
+/-- `+` and `*` are commutative on every pair of doubles (NaN, infinities and signed zeros included) -/
+theorem add_comm (x y : F64) : F64.add x y = F64.add y x := by
+  cases x <;> cases y <;> simp [F64.add]
+  · rename_i a b; cases a <;> cases b <;> simp
+  · rename_i a m e b m' e'
+    rw [Rat.add_comm, Bool.and_comm]
+
+theorem mul_comm (x y : F64) : F64.mul x y = F64.mul y x := by
+  cases x <;> cases y <;> simp [F64.mul]
+  · rename_i a b; cases a <;> cases b <;> simp
+  · rename_i a b m e; cases a <;> cases b <;> simp
+  · rename_i a m e b; cases a <;> cases b <;> simp
+  · rename_i a m e b m' e'
+    have h1 : (F64.fin a m e).toRat * (F64.fin b m' e').toRat = (F64.fin b m' e').toRat * (F64.fin a m e).toRat := Rat.mul_comm _ _
+    have h2 : (a != b) = (b != a) := by cases a <;> cases b <;> rfl
+    rw [h1, h2]
+
+/-- negation is an involution that only flips the sign; `abs` clears it -/
+theorem neg_neg (x : F64) : F64.neg (F64.neg x) = x := by cases x <;> simp [F64.neg]
+theorem abs_neg (x : F64) : F64.abs (F64.neg x) = F64.abs x := by cases x <;> simp [F64.neg, F64.abs]
+theorem abs_idem (x : F64) : F64.abs (F64.abs x) = F64.abs x := by cases x <;> simp [F64.abs]
+
+/-- subtraction is addition of the negation (so `a - b` and `a + (-b)` agree bit for bit) -/
+theorem sub_eq_add_neg (x y : F64) : F64.sub x y = F64.add x (F64.neg y) := rfl
+
 end Borno.Props.C02
